@@ -47,9 +47,12 @@ func TestVerif(t *testing.T) {
 		for i := 0; i < *fDigests; i++ {
 			idx := uint64(i)
 			p := w.Generate(simkit.NewRNG(simkit.RunSeed(*fSeed, *fProp, idx)), *fTier, idx)
-			r := simkit.NewRun(false)
+			r := simkit.NewRun(os.Getenv("VERIF_DUMPLOG") != "")
 			v := simkit.SafeExecute(t, w, p, r, *fProp)
 			fmt.Printf("DIGEST run=%d %s steps=%d viol=%v\n", idx, r.Digest(), r.Steps, v != nil)
+			for _, l := range r.Log {
+				fmt.Printf("  %d| %s\n", idx, l)
+			}
 		}
 		return
 	}
